@@ -16,7 +16,7 @@ collect(r) that has it below r, whatever n and r are (partial resets, resets at 
 ancestor, mutations in between); every collected node carries a fresh hash.
 """
 from . import c10 as base
-from .c10 import (impl, requests, model, oracle, compare, shrink, enc_op, Shadow, H, CASE_TIMEOUT)  # noqa
+from .c10 import (impl, requests, model, oracle, compare, shrink, enc_op, Shadow, H, CASE_TIMEOUT, finding_key)  # noqa
 
 ID = "C14"
 PROPS = "Props/C14.v"
@@ -27,7 +27,8 @@ THEOREMS = ["C14_inv_step", "C14_complete", "C14_idempotent", "C14_failed_op_is_
             "C14_reset_partial_satisfiable", "C14_collect_early_refuted", "C14_write_force_collect",
             "C14_force_lazy_refuted", "C14_reports_sound",
             "C14_guards_satisfiable"]
-RULE = ("C10's histories (5-60 operations over <= 12 generic or Directory/Content nodes, DAGs with shared and "
+RULE = ("C10's deep chains (150..450 nodes exact, 1100/1500 recorded as chain-deeper-than-recursion-limit) and "
+        "C10's histories (5-60 operations over <= 12 generic or Directory/Content nodes, DAGs with shared and "
         "structurally equal nodes) with collect / reset_collect at random nodes between mutations, reads and forced "
         "updates (resets at the root, at strict descendants and at shared nodes, followed later by collects from "
         "ancestors: every node below a reset is owed to the first later collect that has it below), and detach / "
@@ -65,8 +66,8 @@ def detach_scenario(rng, world):
 
 
 def gen(rng, tier):
-    n_cases = 1200 if tier == "quick" else 30000
-    cases = []
+    n_cases = 1000 if tier == "quick" else 30000
+    cases = base.deep_cases(rng, tier)      # chains of 200 .. 1500 nested nodes (deeper in the thorough tier)
     for k in range(n_cases):
         world = "generic" if k % 2 == 0 else "disk"
         nops = rng.randrange(5, 61)
